@@ -37,8 +37,10 @@ theorem tableOk_of_lookup (id : Nat) (info : OpInfo) (h : lookupOpId id = some i
 theorem custom_exists : (lookupOp "Custom").isSome = true := by decide +kernel
 
 
-theorem builtin_of (tf : Nat) : (if ((tf : Nat) : Int) == 0 then deprecatedCode tf else (tf : Int)) = (tf : Int) := by
-  unfold deprecatedCode
+theorem builtin_of (oc : OpCodeT) (tf : Nat) (hb : oc.builtin = (tf : Int)) (hd : oc.deprecated = deprecatedCode tf) :
+    Reader.effectiveBuiltin oc = (tf : Int) := by
+  unfold Reader.effectiveBuiltin deprecatedCode at *
+  rw [hb, hd]
   by_cases h : tf = 0
   · subst h; simp
   · have : ¬ ((tf : Int) = 0) := by omega
@@ -57,9 +59,8 @@ theorem parseOpCode_of (oc : OpCodeT) (tf : Nat) (row : Nat × String × Bool ×
     Reader.parseOpCode oc = .ok (Reader.RCode.mk info' row.2.2.1
       (if (tf : Int) == (WriterTbl.builtinCustom : Int) then some (oc.custom.getD []) else none)
       (Indices.ofTri row.2.2.2) oc.version) := by
-  unfold Reader.parseOpCode
-  simp only [hb, hd, builtin_of, find_readerOps, hf, hl, bind, Except.bind, pure, Except.pure]
-
+  unfold Reader.parseOpCode Reader.readerRow lookupOpE
+  simp only [builtin_of oc tf hb hd, find_readerOps, hf, hl, bind, Except.bind, pure, Except.pure]
 
 theorem opcode_roundtrip (c : Code) (oc : OpCodeT) (info : OpInfo) (hi : lookupOpId c.opId = some info)
     (h : serialiseOpCode c = .ok oc) :
@@ -866,4 +867,92 @@ theorem convOk_of_row (row : Nat × String × Bool × WriterTbl.Tri) (info : OpI
     | some b0 =>
       simp only [hi, hbb, Bool.and_eq_true, bne_iff_ne, ne_eq, decide_eq_true_eq] at hm
       exact ⟨i0, b0, ⟨hc, hb, hbb, hi, hm.1.1, hm.1.2, hm.2⟩⟩
+
+/-- table facts, reader side first: the operator type a builtin code is read as is written with the same builtin code, serialiser
+and index triple (no two builtin codes share an `Op`); the element type a TensorType code is read as is written with that code -/
+def readerRowInverts (row : Nat × String × Bool × WriterTbl.Tri) : Bool :=
+  match lookupOp row.2.1 with
+  | none => false
+  | some info => info.inv == some (row.1, row.2.2.1, Indices.ofTri row.2.2.2) && lookupOpId info.id == some info &&
+      ((row.1 == WriterTbl.builtinCustom) == (info.name == "Custom")) && info.name != "CustomNpuOp"
+
+theorem reader_rows_invert : WriterTbl.readerOps.all readerRowInverts = true := by decide +kernel
+
+theorem dtype_codes_roundtrip : WriterTbl.dtypeMap.all (fun row => dtypeCode row.2.1 == some row.1) = true := by decide +kernel
+
+/-- **file → graph → file, operator codes.** An operator-code entry the reader accepts is written back with the same builtin
+code (as `builtin_code`, and capped at 127 as `deprecated_builtin_code`), the same version, and — for CUSTOM — the same custom
+code (an absent custom code becomes the empty string); other entries carry no custom code. -/
+theorem opcode_preserved (oc : OpCodeT) (rc : RCode) (h : parseOpCode oc = .ok rc) :
+    ∃ (b : Nat) (oc' : OpCodeT), effectiveBuiltin oc = (b : Int) ∧
+      serialiseOpCode { opId := rc.op.id, custom := rc.custom.getD [], version := rc.version } = .ok oc' ∧
+      oc'.builtin = (b : Int) ∧ oc'.deprecated = deprecatedCode b ∧ oc'.version = oc.version ∧
+      oc'.custom = (if b = WriterTbl.builtinCustom then some (oc.custom.getD []) else none) ∧ oc'.extra = [] := by
+  unfold parseOpCode at h
+  obtain ⟨row, hrowE, h⟩ := bind_ok h
+  obtain ⟨info, hinfoE, h⟩ := bind_ok h
+  simp only [pure, Except.pure, Except.ok.injEq] at h
+  subst h
+  have hf : WriterTbl.readerOps.find? (fun r => (r.1 : Int) == effectiveBuiltin oc) = some row := by
+    unfold readerRow at hrowE
+    cases hx : WriterTbl.readerOps.find? (fun r => (r.1 : Int) == effectiveBuiltin oc) with
+    | none => simp [hx, throw, throwThe, MonadExceptOf.throw] at hrowE
+    | some r => simp [hx, pure, Except.pure] at hrowE; rw [hrowE]
+  have hl : lookupOp row.2.1 = some info := by
+    unfold lookupOpE at hinfoE
+    cases hx : lookupOp row.2.1 with
+    | none => simp [hx, throw, throwThe, MonadExceptOf.throw] at hinfoE
+    | some i => simp [hx, pure, Except.pure] at hinfoE; rw [hinfoE]
+  have hrow := List.all_eq_true.mp reader_rows_invert row (List.mem_of_find?_eq_some hf)
+  have hb : (row.1 : Int) = effectiveBuiltin oc := by simpa using List.find?_some hf
+  unfold readerRowInverts at hrow
+  simp only [hl, Bool.and_eq_true, beq_iff_eq, bne_iff_ne, ne_eq] at hrow
+  obtain ⟨⟨⟨hinv, hid⟩, hcus⟩, hnpu⟩ := hrow
+  refine ⟨row.1, ?_⟩
+  unfold serialiseOpCode
+  simp only [hid, bind, Except.bind, pure, Except.pure, hinv]
+  by_cases hc : info.name = "Custom"
+  · have hrc : row.1 = WriterTbl.builtinCustom := by
+      have : (row.1 == WriterTbl.builtinCustom) = true := by rw [hcus]; simp [hc]
+      simpa using this
+    have hbc : effectiveBuiltin oc = (WriterTbl.builtinCustom : Int) := by rw [← hb, hrc]
+    simp only [hc, beq_self_eq_true, if_true]
+    exact ⟨_, hb.symm, rfl, rfl, rfl, rfl, by simp [hrc, hbc], rfl⟩
+  · have hrc : ¬ row.1 = WriterTbl.builtinCustom := by
+      intro hx
+      have : (row.1 == WriterTbl.builtinCustom) = true := by simp [hx]
+      rw [hcus] at this
+      exact hc (by simpa using this)
+    have hcb : (info.name == "Custom") = false := by simpa using hc
+    have hnb : (info.name == "CustomNpuOp") = false := by simpa using hnpu
+    have hbc : ¬ effectiveBuiltin oc = (WriterTbl.builtinCustom : Int) := by
+      rw [← hb]; exact_mod_cast hrc
+    simp only [hcb, hnb, Bool.false_eq_true, if_false]
+    exact ⟨_, hb.symm, rfl, rfl, rfl, rfl, by simp [hrc, hbc], rfl⟩
+
+/-- **file → graph → file, tensor records.** A tensor record the reader accepts is written back (under any buffer index `b`)
+with the same name (absent = empty), shape (absent = scalar), element type and variable flag; its quantisation is the reader's
+normal form of the file's (`readQuant`: dropped without scale and zero point; zero points 0 for a scale without zero points;
+min / max / scale / quantized_dimension as in the file). -/
+theorem tensor_preserved (bufs : List (Option Data)) (t : TensorT) (td : TensorD) (b : Nat) (h : parseTensor bufs t = .ok td) :
+    ∃ tt, tensorT td b = .ok tt ∧ tt.name = some (t.name.getD []) ∧ tt.shape = some (t.shape.getD []) ∧ tt.type = t.type ∧
+      tt.quant = (readQuant t.quant).map quantT ∧ tt.isVariable = t.isVariable ∧ tt.buffer = b ∧ tt.extra = [] := by
+  unfold parseTensor at h
+  obtain ⟨row, hrow, h⟩ := bind_ok h
+  obtain ⟨buf, _, h⟩ := bind_ok h
+  obtain ⟨_, _, h⟩ := bind_ok h
+  simp only [pure, Except.pure, Except.ok.injEq] at h
+  subst h
+  have hf : WriterTbl.dtypeMap.find? (·.1 == t.type) = some row := by
+    unfold dtypeRow at hrow
+    cases hx : WriterTbl.dtypeMap.find? (·.1 == t.type) with
+    | none => simp [hx, throw, throwThe, MonadExceptOf.throw] at hrow
+    | some r => simp [hx, pure, Except.pure] at hrow; rw [hrow]
+  have hr1 : row.1 = t.type := by simpa using List.find?_some hf
+  have hcode : dtypeCode row.2.1 = some row.1 := by
+    have := List.all_eq_true.mp dtype_codes_roundtrip row (List.mem_of_find?_eq_some hf)
+    simpa using this
+  unfold tensorT
+  simp only [hcode, bind, Except.bind, pure, Except.pure, Except.ok.injEq, exists_eq_left', numElems, ne_eq, not_true_eq_false, if_false, hr1]
+  simp
 end VelaVerif.Tflite.Reader
